@@ -761,6 +761,7 @@ func init() {
 			done := r.ParallelFor(len(cases), func(idx int) {
 				c := cases[idx]
 				r.Evals.Add(int64(len(menu)))
+				r.Journal(c)
 				r.Transitions.Add(1)
 				r.States.Add(1)
 				ok, sig, detail := c15Eval(c)
